@@ -15,10 +15,21 @@
   events recorded by the extensions (`Ev.hook`) and, as a model-only device for stating the theorems,
   a pair of markers around every hook site (`Ev.mark`), present whatever the stack is.
 
-  Defect toggle (true = behaviour of the pinned tree):
+  The REQUEST FORM (plain text | `Request::parsed_query()` called beforehand | `set_parsed_query` |
+  a document injected by a `prepare_request` hook) is `Base.preparsed`; the parse future
+  (`parseFut`) takes that document or parses the text and always runs inside the `parse_query`
+  chain, whose hooks get the text.  `executeBatch` / `executeStream` model `execute_batch` and
+  `execute_stream` (subscribe · prepare · parse · validation · one execute per event);
+  `rwExt` is a recording extension whose prepare hook rewrites the request.
+
+  Defect toggles (true = behaviour of the pinned tree, except where stated):
     plainPathSkipsLookup   without extensions (and without a directive on the field) the registry
                            look-up is skipped: a field the static type does not have resolves to
                            `null` instead of the error the extension branch reports
+    PDefects.streamQuerySkipsExecuteHook   `dynamic::Schema::execute_stream` runs a query /
+                           mutation without entering the execute hooks
+    PDefects.preparsedSkipsParseHooks      NOT the pinned tree: the seeded change C30-r3 (parse
+                           chain entered only for requests that still have to be parsed)
   Import-free (core + AGV Model/Spec only).
 -/
 import AGV.Core.Types
